@@ -169,10 +169,13 @@ def run_inner(tape, ctx, item=None):
             pred_stage = t.pick(stages, "pred.stage")
     # encode: decoding applies chain[0] first, so encoding goes from the last filter to the first
     data = payload
+    partial_ok = False
     if pred is not None and pred_stage == len(chain) - 1:
         row = pred[2]
-        if len(payload) % row and not (pred[0].get(b"Predictor") == 2 and len(payload) > row and t.coin(40, 100, "pred.partialrow")):
-            # (a TIFF-predicted payload may also end in an incomplete row; otherwise pad to whole rows)
+        if len(payload) % row and pred[0].get(b"Predictor") == 2 and len(payload) > row and t.coin(40, 100, "pred.partialrow"):
+            partial_ok = True  # a TIFF-predicted payload may end in an incomplete row
+            ctx.probe("tiff predictor with an incomplete last row")
+        elif len(payload) % row:
             payload = payload + bytes(row - len(payload) % row)
         if not payload:
             payload = bytes(row)
@@ -182,7 +185,7 @@ def run_inner(tape, ctx, item=None):
         f = chain[idx]
         if pred is not None and idx == pred_stage:
             row = pred[2]
-            if len(data) % row or not data:
+            if (len(data) % row and not (partial_ok and idx == len(chain) - 1)) or not data:
                 # intermediate data cannot be padded without changing the inner stages: drop the predictor
                 pred = None
                 pred_stage = None
